@@ -727,7 +727,8 @@ def apply_edit_to_picture(G, op, allow_dangling=False):
 # ----------------------------------------------------------------------------
 # DAG-shaped models with one fault point per element (C05 / C08 / C16 / C17)
 
-def gen_dag_model(draw, ncells=(4, 7), items=True, uncached=True, none_points=False, handled=True, uncached_p=5):
+def gen_dag_model(draw, ncells=(4, 7), items=True, uncached=True, none_points=False, handled=True, uncached_p=5,
+                  lines=True):
     """Build operations for a model whose cells form a DAG of calls.
 
     Cells d0..d<n-1>; d<k> calls 1-3 cells of lower index (by name, by attribute path, or through an
@@ -797,11 +798,16 @@ def gen_dag_model(draw, ncells=(4, 7), items=True, uncached=True, none_points=Fa
         body = terms[0]
         for t in terms[1:]:
             body = ["bin", "+", body, t]
+        form = draw(st.sampled_from(["lambda", "def", "deflines"] if lines else ["lambda", "def"]))
         if none_points and draw(st.integers(0, 4)) == 0:
             body = ["failnone", "N%d" % k, body]
+            if form == "deflines":
+                form = "def"
         c = {"name": "d%d" % k, "params": params, "expr": body,
              "cached": not (uncached and draw(st.integers(0, uncached_p - 1)) == 0),
-             "allow_none": None, "form": draw(st.sampled_from(["lambda", "def"])), "tick": True}
+             "allow_none": None, "form": form, "tick": True}
+        if form == "deflines":
+            c["terms"] = terms
         emit(["new_cells", p, c])
         cells.append((p, c["name"], nparams))
     return ops, G, {"cells": cells, "top": cells[-1]}
